@@ -1251,6 +1251,10 @@ func canonObj(t *Term) *Term {
 	if base.Op != "makeslice" || (base.Name != "[]byte" && base.Name != "[]uint8") || len(base.Args) != 2 || base.Args[0].String() != base.Args[1].String() {
 		return t
 	}
+	// buf := make([]byte, n); x.FillBytes(buf) is x.Bytes() left-padded to n bytes
+	if ev.Op == "call" && ev.Name == "(*math/big.Int).FillBytes" && len(ev.Args) == 2 && ev.Args[1].Op == "self" {
+		return &Term{Op: "call", Name: "leftpad", V: t.V, Args: []*Term{{Op: "call", Name: "(*math/big.Int).Bytes", Args: []*Term{ev.Args[0]}}, base.Args[0]}}
+	}
 	if ev.Op != "call" || ev.Name != "builtin.copy" || len(ev.Args) != 2 {
 		return t
 	}
